@@ -34,6 +34,7 @@ type mwCase struct {
 	T0          int64             `json:"t0"`
 	MatchMethod bool              `json:"match_method"`
 	LockTimeout bool              `json:"lock_timeout"` // the caller fixed the rpc timeout (as client.WithRPCTimeout does)
+	CtxDone     bool              `json:"ctx_done"`     // the caller's context is cancelled before the routing step runs
 }
 
 type mwEffect struct {
@@ -178,6 +179,11 @@ func runMW(raw json.RawMessage) (interface{}, error) {
 		}
 	}
 	o.ReValid, o.ReMatch = regexTables(ctxs, values)
+	if c.CtxDone {
+		var cancelCtx context.CancelFunc
+		ctx, cancelCtx = context.WithCancel(ctx)
+		cancelCtx()
+	}
 	var opts []xdssuite.Option
 	if call.Extractor {
 		opts = append(opts, xdssuite.WithRouterMetaExtractor(func(context.Context) map[string]string { return md }))
